@@ -310,3 +310,100 @@ def perturb(doc, r):
             elif kind == "nullify" and v is not None and path:
                 return _replace(doc, path, None), "value->null"
     return None, None
+
+
+# ------------------------------------------------------------------------------------------------
+# CSV tables and Python objects
+def random_csv_pair(r, opts):
+    import os
+    import tempfile
+    from graphtage import csv as gcsv
+    rows = [[r.choice(WORDS) or "x" for _ in range(r.randint(1, 4))] for _ in range(r.randint(1, 5))]
+    rows2 = [list(row) for row in rows]
+    for _ in range(r.randint(0, 3)):
+        c = r.random()
+        if rows2 and c < 0.3:
+            del rows2[r.randrange(len(rows2))]
+        elif c < 0.55:
+            rows2.insert(r.randint(0, len(rows2)), [r.choice(WORDS) or "y" for _ in range(r.randint(1, 4))])
+        elif rows2 and c < 0.8:
+            row = rows2[r.randrange(len(rows2))]
+            row[r.randrange(len(row))] = r.choice(WORDS) or "z"
+        elif rows2:
+            row = rows2[r.randrange(len(rows2))]
+            if r.random() < 0.5 and len(row) > 1:
+                del row[r.randrange(len(row))]
+            else:
+                row.insert(r.randint(0, len(row)), "new")
+    import csv
+    trees = []
+    from .common import scratch
+    for rws in (rows, rows2):
+        fd, path = tempfile.mkstemp(suffix=".csv", dir=scratch())
+        with os.fdopen(fd, "w", newline="") as f:
+            csv.writer(f).writerows(rws)
+        trees.append(gcsv.build_tree(path, build_options(opts)))
+        os.unlink(path)
+    return trees[0], trees[1]
+
+
+class _Point:
+    def __init__(self, x, y, tags=None):
+        self.x = x
+        self.y = y
+        if tags is not None:
+            self.tags = tags
+
+
+class _Shape:
+    def __init__(self, name, points, meta):
+        self.name = name
+        self.points = points
+        self.meta = meta
+
+
+def random_pyobj(r, depth=2):
+    c = r.random()
+    if depth <= 0 or c < 0.3:
+        return random_scalar(r)
+    if c < 0.5:
+        return _Point(r.randint(0, 3), r.choice(WORDS), [r.randint(0, 2) for _ in range(r.randint(0, 3))] if r.random() < 0.5 else None)
+    if c < 0.7:
+        return _Shape(r.choice(WORDS), [random_pyobj(r, depth - 1) for _ in range(r.randint(0, 3))], {"k": random_pyobj(r, depth - 1)})
+    if c < 0.8:
+        return tuple(random_pyobj(r, depth - 1) for _ in range(r.randint(0, 3)))
+    if c < 0.9:
+        return [random_pyobj(r, depth - 1) for _ in range(r.randint(0, 3))]
+    return {k: random_pyobj(r, depth - 1) for k in r.sample(RKEYS, r.randint(0, 3))}
+
+
+def mutate_pyobj(o, r):
+    import copy
+    o = copy.deepcopy(o)
+    if isinstance(o, _Point):
+        if r.random() < 0.5:
+            o.x = r.randint(0, 3)
+        else:
+            o.y = r.choice(WORDS)
+    elif isinstance(o, _Shape):
+        c = r.random()
+        if c < 0.3:
+            o.name = r.choice(WORDS)
+        elif c < 0.7 and o.points:
+            i = r.randrange(len(o.points))
+            o.points[i] = mutate_pyobj(o.points[i], r)
+        else:
+            o.points.append(random_pyobj(r, 1))
+    elif isinstance(o, (list, dict)):
+        return mutate(o, r) if all(not isinstance(x, (_Point, _Shape, tuple)) for x in (o if isinstance(o, list) else o.values())) else o
+    else:
+        return random_pyobj(r, 1)
+    return o
+
+
+def random_pyobj_pair(r, opts):
+    from graphtage import pydiff
+    a = random_pyobj(r, 2)
+    b = mutate_pyobj(a, r) if r.random() < 0.8 else random_pyobj(r, 2)
+    bo = build_options(opts)
+    return pydiff.build_tree(a, bo), pydiff.build_tree(b, bo)
